@@ -8,11 +8,11 @@ Import ListNotations.
    and EVERY schedule: no outpoint is held by two builds, what is reserved in the wallet is exactly the
    union of the inputs of the builds in flight, and a held output is not offered to anybody. *)
 Theorem C14_exclusive :
-  forall n choose more finish,
+  forall n choose more finish can_sign,
   (forall b r l, NoDup (map uid l) -> incl (choose b r l) l /\ NoDup (map uid (choose b r l))) ->
   forall w0, NoDup (map (fun e : utxo * bool => uid (fst e)) w0) -> (forall e, In e w0 -> snd e = false) ->
   forall sched,
-  let st := run true n choose more finish sched (init w0) in
+  let st := run true n choose more finish can_sign sched (init w0) in
   (forall b1 b2 i, b1 <> b2 -> In i (held_ids st b1) -> In i (held_ids st b2) -> False) /\
   (forall b, NoDup (held_ids st b)) /\
   (forall i, In i (reserved_ids (wal st)) <-> exists b, b < n /\ In i (held_ids st b)) /\
@@ -24,10 +24,10 @@ Print Assumptions C14_exclusive.
    the deficits it asks for): its premise is discharged by C03_select_sound / C03_sqlite_sound. *)
 Theorem C14_exclusive_real_chooser :
   forall fpb shuffle, (forall l, Permutation.Permutation l (shuffle l)) -> (0 <= fpb)%Z ->
-  forall strat amount n more finish w0,
+  forall strat amount n more finish can_sign w0,
   NoDup (map (fun e : utxo * bool => uid (fst e)) w0) -> (forall e, In e w0 -> snd e = false) ->
   forall sched,
-  let st := run true n (c03_choose fpb shuffle strat amount) more finish sched (init w0) in
+  let st := run true n (c03_choose fpb shuffle strat amount) more finish can_sign sched (init w0) in
   (forall b1 b2 i, b1 <> b2 -> In i (held_ids st b1) -> In i (held_ids st b2) -> False) /\
   (forall b, NoDup (held_ids st b)) /\
   (forall i, In i (reserved_ids (wal st)) <-> exists b, b < n /\ In i (held_ids st b)) /\
@@ -35,14 +35,16 @@ Theorem C14_exclusive_real_chooser :
 Proof. exact exclusive_c03. Qed.
 Print Assumptions C14_exclusive_real_chooser.
 
-(* Once every build has failed, been abandoned or been broadcast nothing is reserved; if none was
+(* [can_sign b inputs] = false makes build b fail in tx.sign after its last round (locked account, missing key):
+   it then goes through Abort = release_tx like a build that found no funds, and ends Failed.
+   Once every build has failed (for lack of funds OR while signing), been abandoned or been broadcast nothing is reserved; if none was
    broadcast the wallet is exactly what it was: every output is available again. *)
 Theorem C14_all_released :
-  forall n choose more finish,
+  forall n choose more finish can_sign,
   (forall b r l, NoDup (map uid l) -> incl (choose b r l) l /\ NoDup (map uid (choose b r l))) ->
   forall w0, NoDup (map (fun e : utxo * bool => uid (fst e)) w0) -> (forall e, In e w0 -> snd e = false) ->
   forall sched,
-  let st := run true n choose more finish sched (init w0) in
+  let st := run true n choose more finish can_sign sched (init w0) in
   (forall b, b < n -> finished (ph (bs st b)) = true) ->
   reserved_ids (wal st) = [] /\
   ((forall b, b < n -> ph (bs st b) <> PDone Broadcast) -> wal st = w0).
@@ -52,15 +54,25 @@ Print Assumptions C14_all_released.
 (* Non-vacuity: the same programs without their Lock/Unlock steps admit a schedule in which two builds
    hold the same outpoint. *)
 Theorem C14_lock_needed :
-  exists n choose more finish w0 sched,
+  exists n choose more finish can_sign w0 sched,
     (forall b r l, NoDup (map uid l) -> incl (choose b r l) l /\ NoDup (map uid (choose b r l))) /\
     NoDup (map (fun e : utxo * bool => uid (fst e)) w0) /\ (forall e, In e w0 -> snd e = false) /\
-    let st := run false n choose more finish sched (init w0) in
+    let st := run false n choose more finish can_sign sched (init w0) in
     exists i, In i (held_ids st 0) /\ In i (held_ids st 1).
 Proof. exact lock_needed. Qed.
 Print Assumptions C14_lock_needed.
 
 Example C14_ex_with_lock :
-  let st := run true 2 first_one (fun _ _ _ => false) (fun _ => false) demo_sched (init demo_wallet) in
+  let st := run true 2 first_one (fun _ _ _ => false) (fun _ => false) (fun _ _ => true) demo_sched (init demo_wallet) in
   held_ids st 0 = [1%N] /\ held_ids st 1 = [] /\ lock st = Some 1%nat.
 Proof. exact demo_with_lock. Qed.
+
+(* non-vacuity for the signing failure: funded, tx.sign raises, everything is released *)
+Example C14_ex_sign_fails :
+  let st := run true 1 first_one (fun _ _ _ => false) (fun _ => false) (fun _ _ => false)
+                [0; 0; 0; 0; 0; 0]%nat (init demo_wallet) in
+  ph (bs st 0%nat) = PDone Failed /\ reserved_ids (wal st) = [] /\ wal st = demo_wallet /\
+  (let st5 := run true 1 first_one (fun _ _ _ => false) (fun _ => false) (fun _ _ => false)
+                  [0; 0; 0; 0; 0]%nat (init demo_wallet) in
+   ph (bs st5 0%nat) = PAbort /\ held_ids st5 0%nat = [1%N]).
+Proof. exact demo_sign_fails. Qed.
